@@ -660,18 +660,15 @@ def load_corpus():
     return res
 
 
-def run(ctx):
-    ctx.prove()
-    ctx.assumptions += ["floating-point rounding is not proved: the WF residuals of every C context are measured with relative "
-                        "tolerance %g" % TOL,
-                        "C built with gcc -O2 -ffp-contract=off: binary64 operation by operation; sqrt correctly rounded"]
-    cbin = ctx.cc("drv", [H / "drv.c"], repo_srcs=["trajtrap.c", "trajbell.c"], mode="num")
-    ok, outs, failed = ctx.coq_build(["C14/TrapDefs.v", "C14/BellDefs.v", "Common/FloatOps.v"])
-    if not ok:
-        raise vlib.CheckError("model does not compile: %s" % failed)
-    r = random.Random(ctx.subseed("c14"))
-    n = 4000 if ctx.quick else 120000
-    reqs = [(k, q, aim, k in ("trap", "bell") and finite(*q)) for (k, q, aim) in load_corpus()]
+def zero_limit(kind, q):
+    """a limit of the request is zero (+0.0 or -0.0): both generators must fail (return 0), fix C14-1"""
+    return q[0] == 0 if kind == "trap" else (q[0] == 0 or q[1] == 0 or q[2] == 0)
+
+
+def run_batch(ctx, cbin, r, n, corpus, st, bi):
+    """one batch: n aimed requests per generator (+ the corpus), C vs model bit for bit, the oracle on everything the C produced;
+    only counters survive the batch (bounded memory)"""
+    reqs = [(k, q, aim, k in ("trap", "bell") and finite(*q)) for (k, q, aim) in corpus]
     for _ in range(n):
         q, aim, ok_ = gen_trap(r)
         reqs.append(("trap", q, aim, ok_))
@@ -706,10 +703,8 @@ def run(ctx):
     # the model on the same inputs
     m_gen = run_model(ctx, "c14gen", [m_gen_expr(k, q) for (k, q, _, _) in reqs], shard=max(100, len(reqs) // 16 + 1))
     m_ev = run_model(ctx, "c14ev", [m_ev_expr(k, c, xs) for (k, c, xs, _) in evs], shard=max(60, len(evs) // 32 + 1))
-    nd = 0
     suspects = []
-    branch = {}
-    passes = {}
+    branch, passes, aims = st["branch"], st["passes"], st["aims"]
     for i, (k, q, aim, ok_) in enumerate(reqs):
         nf = 1 + NF[k]
         extra = [fcorr.fval(b) for b in m_gen[i][nf:]]
@@ -719,27 +714,40 @@ def run(ctx):
             pk = int(extra[1])
             passes[pk] = passes.get(pk, 0) + 1
         if c_gen[i] != m_gen[i][:nf]:
-            nd += 1
+            if zero_limit(k, q):
+                # the model is the tree WITH proposed_fixes/C14-1.diff (zero limit => return 0); the unpatched tree goes on
+                ret = fcorr.fval(c_gen[i][0])
+                st["zero_limit_diff"] += 1
+                if ret != 0 and k not in st["zero_reported"]:
+                    st["zero_reported"].add(k)
+                    names = ["vm", "ac", "de", "p0", "p1", "v0", "v1"] if k == "trap" else ["jm", "am", "vm", "p0", "p1", "v0", "v1"]
+                    vals = [fcorr.fval(b) for b in c_gen[i]]
+                    ctx.report("a_traj%s_gen/zero-limit" % k,
+                               "a_traj%s_gen with a zero limit (%s) returned %r instead of 0 (no motion is possible); context %r"
+                               % (k, ", ".join("%s=%r" % nv for nv in zip(names, q)), ret, vals[1:]),
+                               {"function": "a_traj%s_gen" % k, "request": dict(zip(names, [repr(v) for v in q])),
+                                "harness_line": g_lines[i], "fix": "proposed_fixes/C14-1.diff",
+                                "how": "echo '<harness_line>' | build/C14/drv   (first word = return value as a bit pattern)"})
+                continue    # a failure (return 0) with different left-over context fields is not a difference the property sees
+            st["nd"] += 1
             suspects.append(i)
-            if nd <= 3:
+            if st["nd"] <= 3:
                 ctx.tie_broken("correspondence C14 %s generator (bit-exact binary64): request %r (aim %s): C %s, model %s"
                                % (k, q, aim, c_gen[i], m_gen[i][:nf]))
-    nde = 0
     for j, (k, c, xs, i) in enumerate(evs):
         if c_ev[j] != m_ev[j]:
-            nde += 1
+            st["nde"] += 1
             if i is not None:
                 suspects.append(i)
-            if nde <= 3:
+            if st["nde"] <= 3:
                 q_ = NQ[k]
                 d = next((a for a in range(min(len(c_ev[j]), len(m_ev[j]))) if c_ev[j][a] != m_ev[j][a]), 0)
                 ctx.tie_broken("correspondence C14 %s evaluation (bit-exact binary64): ctx %r x=%r output %s: C %s, model %s"
                                % (k, c, xs[d // q_] if d // q_ < len(xs) else None, ["pos", "vel", "acc", "jer"][d % q_],
                                   c_ev[j][d] if d < len(c_ev[j]) else None, m_ev[j][d] if d < len(m_ev[j]) else None))
     # search oracle: the property itself on everything the C produced (disagreeing cases first)
-    order = list(dict.fromkeys(suspects)) + [i for i in range(len(reqs)) if i not in set(suspects)]
-    nrep, seen, n_checked, n_pos = 0, set(), 0, 0
-    aims = {}
+    sus = set(suspects)
+    order = list(dict.fromkeys(suspects)) + [i for i in range(len(reqs)) if i not in sus]
     for i in order:
         k, q, aim, ok_ = reqs[i]
         aims[k + ":" + aim.split("+")[0]] = aims.get(k + ":" + aim.split("+")[0], 0) + 1
@@ -750,16 +758,16 @@ def run(ctx):
         kk, c2, xs, _ = evs[i]
         e = [fcorr.fval(b) for b in c_ev[i]]
         ev = [e[a * NQ[k]:(a + 1) * NQ[k]] for a in range(len(xs))]
-        n_checked += 1
+        st["n_checked"] += 1
         if ret > 0:
-            n_pos += 1
+            st["n_pos"] += 1
         why = ORACLE[k](q, ret, c, xs, ev)
         if why:
             cls = k + "/" + why.split(":")[0][:60]
-            if cls in seen or nrep >= 4:
+            if cls in st["seen"] or st["nrep"] >= 4:
                 continue
-            seen.add(cls)
-            nrep += 1
+            st["seen"].add(cls)
+            st["nrep"] += 1
             sq, swhy = shrink(cbin, k, q, ctx.subseed("shrink"))
             names = ["vm", "ac", "de", "p0", "p1", "v0", "v1"] if k == "trap" else ["jm", "am", "vm", "p0", "p1", "v0", "v1"]
             ctx.report("%s/%s" % (k, (swhy or why).split(":")[0][:40].replace(" ", "_")), (swhy or why),
@@ -769,27 +777,56 @@ def run(ctx):
                         "harness_line": c_gen_line(k, sq),
                         "how": "echo '<harness_line>' | build/C14/drv   (prints ret and the context fields as bit patterns); "
                                "corpus line: '%s %s'" % (k, " ".join(float(v).hex() for v in sq))})
-    n_eval_pts = sum(len(xs) for (_, _, xs, _) in evs)
-    ctx.count(evaluations=len(reqs) + n_eval_pts, nontrivial=len(set(g_lines[i] for i in range(len(reqs)) if c_gen[i][0] not in
-                                                                   ("nan", "0000000000000000", "8000000000000000"))))
+    st["n_eval_pts"] += sum(len(xs) for (_, _, xs, _) in evs)
+    st["n_reqs"] += len(reqs)
+    for i in range(len(reqs)):
+        if c_gen[i][0] not in ("nan", "0000000000000000", "8000000000000000"):
+            st["nontrivial"].add(hash(g_lines[i]))
+    if bi == 0:
+        for i in range(0, len(reqs), max(1, len(reqs) // 4)):
+            ctx.sample({"kind": reqs[i][0], "aim": reqs[i][2], "request": [repr(v) for v in reqs[i][1]], "c_output": c_gen[i][:4]})
+
+
+def run(ctx):
+    ctx.prove()
+    ctx.assumptions += ["floating-point rounding is not proved: the WF residuals of every C context are measured with relative "
+                        "tolerance %g" % TOL,
+                        "C built with gcc -O2 -ffp-contract=off: binary64 operation by operation; sqrt correctly rounded",
+                        "the model is /repo with proposed_fixes/C14-1.diff (zero limits => the generators return 0); requests with "
+                        "a zero limit on which the tree under test does not return 0 are reported under the keys "
+                        "a_trajtrap_gen/zero-limit and a_trajbell_gen/zero-limit"]
+    cbin = ctx.cc("drv", [H / "drv.c"], repo_srcs=["trajtrap.c", "trajbell.c"], mode="num")
+    ok, outs, failed = ctx.coq_build(["C14/TrapDefs.v", "C14/BellDefs.v", "Common/FloatOps.v"])
+    if not ok:
+        raise vlib.CheckError("model does not compile: %s" % failed)
+    r = random.Random(ctx.subseed("c14"))
+    n = 4000
+    nb = 1 if ctx.quick else 14       # batches keep the memory of the run (and of each coqc shard) bounded
+    st = {"branch": {}, "passes": {}, "aims": {}, "nd": 0, "nde": 0, "n_checked": 0, "n_pos": 0, "seen": set(), "nrep": 0,
+          "n_eval_pts": 0, "n_reqs": 0, "nontrivial": set(), "zero_limit_diff": 0, "zero_reported": set()}
+    for bi in range(nb):
+        run_batch(ctx, cbin, r, n, load_corpus() if bi == 0 else [], st, bi)
+    branch = st["branch"]
+    ctx.count(evaluations=st["n_reqs"] + st["n_eval_pts"], nontrivial=len(st["nontrivial"]))
     ctx.cov["rule"] = ("evaluations = generator calls + (context, query time) evaluation points, each compared bit for bit; "
                        "distinct_nontrivial = distinct generator requests with a non-zero, non-NaN result. Requests are aimed "
                        "(from VERIF_SEED) at every planning branch and at the branch boundaries (peak-velocity formula = vm^2, "
                        "v0^2, v1^2; cruise time = 0; limit tests; feasibility bound), both directions, clamped and negative "
-                       "boundary velocities, integer/dyadic data for exact ties, infeasible and non-finite data; query times on, "
-                       "one ulp around and between all phase boundaries, outside [0,T], and on arbitrary contexts")
+                       "boundary velocities, integer/dyadic data for exact ties, infeasible, zero-limit and non-finite data; query "
+                       "times on, one ulp around and between all phase boundaries, outside [0,T], and on arbitrary contexts; "
+                       "%d batch(es) of %d requests per generator" % (nb, n))
     ctx.cov["model_branch_hits"] = dict(sorted(branch.items()))
     ctx.cov["branch_legend"] = ("trap: 0 ac==de, 1 vc2<=0, 2 cruise, 3 acceleration only, 4 acc v12<0, 5 deceleration only, "
-                                "6 dec v12<0, 7 acceleration+deceleration; bell: 0-3 cruise (bit0: a_max not reached in acc "
-                                "phase, bit1: in dec phase), 4 loop accept both, 5 no acceleration phase, 6 no deceleration phase, "
-                                "7/8 negative discriminant, 9 loop exhausted, 10 model fuel exhausted")
-    want = ["trap:%d" % b for b in (0, 1, 2, 3, 5, 7)] + ["bell:%d" % b for b in (0, 1, 2, 3, 4, 5, 6, 9)]
+                                "6 dec v12<0, 7 acceleration+deceleration, 8 zero velocity limit; bell: 0-3 cruise (bit0: a_max "
+                                "not reached in acc phase, bit1: in dec phase), 4 loop accept both, 5 no acceleration phase, 6 no "
+                                "deceleration phase, 7/8 negative discriminant, 9 loop exhausted, 10 model fuel exhausted, 11 zero "
+                                "limit")
+    want = ["trap:%d" % b for b in (0, 1, 2, 3, 5, 7, 8)] + ["bell:%d" % b for b in (0, 1, 2, 3, 4, 5, 6, 9, 11)]
     ctx.cov["model_branches_not_reached"] = [w for w in want if w not in branch]
-    ctx.cov["bell_loop_passes_histogram"] = dict(sorted(passes.items()))
-    ctx.cov["request_aims"] = dict(sorted(aims.items()))
-    ctx.cov["oracle_checked_requests"] = n_checked
-    ctx.cov["oracle_checked_positive_duration"] = n_pos
-    ctx.cov["generator_mismatches"] = nd
-    ctx.cov["evaluation_mismatches"] = nde
-    for i in range(0, len(reqs), max(1, len(reqs) // 4)):
-        ctx.sample({"kind": reqs[i][0], "aim": reqs[i][2], "request": [repr(v) for v in reqs[i][1]], "c_output": c_gen[i][:4]})
+    ctx.cov["bell_loop_passes_histogram"] = dict(sorted(st["passes"].items()))
+    ctx.cov["request_aims"] = dict(sorted(st["aims"].items()))
+    ctx.cov["oracle_checked_requests"] = st["n_checked"]
+    ctx.cov["oracle_checked_positive_duration"] = st["n_pos"]
+    ctx.cov["generator_mismatches"] = st["nd"]
+    ctx.cov["evaluation_mismatches"] = st["nde"]
+    ctx.cov["zero_limit_requests_differing_from_fixed_model"] = st["zero_limit_diff"]
